@@ -22,6 +22,14 @@ func TestC04(t *testing.T) {
 	edits := corpusS3(n3, "2", "auto", 1, &w.Alpha{SpecEdits: []string{"drop-canary", "canary-replicas=1", "canary-replicas=3"}})
 	edits.name = "S3-canary-2-spec-edits"
 	scs = append(scs, edits)
+	// node-affinity assignment mode (the production setting) with templates whose own affinity excludes some other node by
+	// name: the pods are pinned by an affinity the scheduler model honours, operator included
+	pinned := corpusS3(n3, "1", "auto", b, &w.Alpha{Kubectl: []string{"canary-validate"}, Templates: []string{"C+notname:n2"}})
+	pinned.name = "S3-canary-1-affinity-mode"
+	pinned.cfg = w.Config{AffinityMode: true}
+	pinned.tpls = []string{"A", "B+notname:zzz", "C+notname:n2"}
+	pinned.first = []w.Event{evb("setTemplate", edsKey, "B+notname:zzz")}
+	scs = append(scs, pinned)
 	if h.Thorough() {
 		faulty := canaryDev()
 		faulty.EDSFaults = []string{"lost:update ExtendedDaemonSet", "reject:list Node", "reject:list Pod"}
